@@ -12,6 +12,9 @@ import Gts.Props.C02
 import Gts.Lemmas.MarksInv
 import Gts.Lemmas.MarkGuardOps
 import Gts.Lemmas.MarkGuardEmbed
+import Gts.Bridge.SeqInsert
+import Gts.Bridge.SeqDelete
+import Gts.Bridge.SeqConcat
 namespace Gts.C10
 open Gts Loc
 
@@ -391,5 +394,49 @@ theorem embed_delete_feature_marks_partial (host guest : Gts.Seq) (i : Int) (hg 
     embed_then_delete_marks_partial f.loc i guest.len hw hg g1 g2⟩
   show _ ∈ ((host.embed i guest).feats.map fun f => { f with loc := f.loc.expand i (-guest.len) })
   exact List.mem_map_of_mem hm
+
+/-! ### inverse laws for the code AS IT IS WRITTEN NOW
+
+`Gts.Gen.seqInsert` / `seqDelete` / `seqConcat` are regenerated from sequence.go on every run (go2lean/gseq.go) and
+proved equal to the model by `Gts/Bridge/SeqInsert.lean`, `SeqDelete.lean`, `SeqConcat.lean`. -/
+
+/-- **`gts.Delete(gts.Insert(host, i, guest), i, Len(guest))` as written**: for an index inside the host neither
+call panics and the residues of the host come back -/
+theorem gen_delete_insert_bytes {ι : Type} (ops : Gen.InfoOps ι) (hi gi : ι) (host guest : Gts.Seq) (i : Int)
+    (h0 : 0 ≤ i) (h1 : i ≤ host.len) :
+    ∃ mi mf mb, Gen.seqInsert ops hi host.feats host.bytes i gi guest.feats guest.bytes = .ok (mi, mf, mb) ∧
+      ∃ ri rf, Gen.seqDelete ops mi mf mb i guest.len = .ok (ri, rf, host.bytes) := by
+  refine ⟨_, _, _, Bridge.seqInsert_eq ops hi gi host guest i ⟨h0, h1⟩, ?_⟩
+  have hlen : (host.insert i guest).len = host.len + guest.len := by
+    simp only [Seq.insert, Seq.spliceBytes, Seq.len, List.length_append, List.length_take, List.length_drop]
+    simp only [Seq.len] at h1
+    omega
+  have hok : Bridge.deleteOk (host.insert i guest).len i guest.len := by
+    have hg : 0 ≤ guest.len := by simp only [Seq.len]; omega
+    simp only [Bridge.deleteOk, hlen]
+    omega
+  have := Bridge.seqDelete_eq ops (ops.tryShift hi i guest.len) (host.insert i guest) i guest.len hok
+  exact ⟨_, _, by rw [this, delete_insert_bytes host guest i h0 h1]⟩
+
+/-- **`gts.Concat` as written** never panics; its residues are the residues of the pieces in order -/
+theorem gen_concat_bytes {ι : Type} (ops : Gen.InfoOps ι) (ss : List (Gen.SeqV ι)) :
+    ∃ i ff, Gen.seqConcat ops ss = .ok (i, ff, (ss.map fun v => v.2.2).flatten) := by
+  have hb : (Seq.concat (ss.map Bridge.toSeq)).bytes = (ss.map fun v => v.2.2).flatten := by
+    cases ss with
+    | nil => rfl
+    | cons v vs =>
+      simp only [List.map_cons, Seq.concat, List.flatten_cons]
+      have : ∀ (ws : List (Gen.SeqV ι)) (a : Gts.Seq),
+          ((ws.map Bridge.toSeq).foldl Seq.concat2 a).bytes = a.bytes ++ (ws.map fun v => v.2.2).flatten := by
+        intro ws
+        induction ws with
+        | nil => intro a; simp
+        | cons w ws ih => intro a; simp [ih, Seq.concat2, Bridge.toSeq, List.append_assoc]
+      rw [this]
+      rfl
+  exact ⟨_, _, by rw [Bridge.seqConcat_eq, hb]⟩
+
+-- non-vacuity
+example : (0 : Int) ≤ 2 ∧ (2 : Int) ≤ (⟨[], [65, 67, 71, 84]⟩ : Gts.Seq).len := by decide
 
 end Gts.C10
